@@ -25,8 +25,11 @@ RULE = ("family 'parts': random map pipeline with >=1 independent (never reduced
         "cleanup=False) per part in a fresh simulated process each, then a full map(cleanup=False). family 'learners': "
         "create_learners(split_independent_axes on/off, fixed_indices?, return_output on/off) driven by a seeded point "
         "scheduler that interleaves ask/function/tell of all learners whose generation predecessors (per key) are done, "
-        "optional cloudpickle round-trip per learner; then a full map(cleanup=False). family 'reject': fixing a reduced "
-        "axis, an unknown axis, an out-of-range index. distinct_nontrivial = distinct (workload, partition/order or "
+        "optional cloudpickle round-trip per learner; then a full map(cleanup=False). Parts may run only some outputs "
+        "(output_names), one part may be repeated (nothing recomputed, same results returned), the caller's request dicts are "
+        "re-used on a longer axis. family 'reject': fixing a reduced axis, an unknown name (made up, or the name of an array / "
+        "output / scalar / function, alone or next to a valid axis), an out-of-range index, and reduced-after-add (request "
+        "accepted, pipeline grown in place by a reducing function, same request again). distinct_nontrivial = distinct (workload, partition/order or "
         "learner schedule digest) with >=2 parts or >=2 learner points")
 COMPONENTS = {
     "real": ["run_map with fixed_indices (_mask_fixed_axes, _existing_and_missing_indices, _validate_fixed_indices)",
